@@ -2,6 +2,7 @@ package main
 
 import (
 	"fmt"
+	"reflect"
 	"regexp"
 	"strings"
 )
@@ -275,6 +276,8 @@ func (r *Ref) member(n *N, name string) (interface{}, *EvalError) {
 		return e.Any, nil
 	case "Objs":
 		return e.Objs, nil
+	case "Ob2":
+		return e.Ob2, nil
 	case "Info", "info":
 		return e.Info, nil
 	case "Index", "index":
@@ -284,6 +287,17 @@ func (r *Ref) member(n *N, name string) (interface{}, *EvalError) {
 }
 
 func (r *Ref) prop(n *N, recv interface{}, name string, nilsafe bool) (interface{}, *EvalError) {
+	if recv != nil && reflect.TypeOf(recv).Kind() == reflect.Struct {
+		// the other struct type (Ob2): its members by name
+		f := reflect.ValueOf(recv).FieldByName(name)
+		if f.IsValid() {
+			return f.Interface(), nil
+		}
+		if nilsafe {
+			return nil, nil
+		}
+		return nil, r.fail(n, "no member %s", name)
+	}
 	o, ok := recv.(*Obj)
 	if recv == nil || (ok && o == nil) {
 		if nilsafe {
@@ -445,6 +459,12 @@ func (r *Ref) call(n *N, name string, args []interface{}) (interface{}, *EvalErr
 		return r.guard(n, func() interface{} { return e.CS(s) })
 	case "Va":
 		return r.guard(n, func() interface{} { return e.Va(args...) })
+	case "Nest":
+		a, ok := ints(1)
+		if !ok {
+			return nil, r.fail(n, "bad arguments to Nest")
+		}
+		return r.guard(n, func() interface{} { return e.Nest(a[0]) })
 	case "Tup":
 		cp := append([]interface{}{}, args...)
 		return r.guard(n, func() interface{} { return e.Tup(cp...) })
